@@ -49,69 +49,74 @@ def parse_cards(s):
     return set() if s == '-' else {Card.int_to_card(int(x)) for x in s.split(',')}
 
 
-def impl_exec(ops):
+def _step(im, op):
     from bridge_env import (Bid, Card, Contract, Hands, ObservedPlayingPhase, Player, PlayingPhase,
                             PlayingPhaseWithHands, Suit)
-    im = Impl()
-    out = []
 
     def contract(b, d):
         return Contract(final_bid=None if b == '-' else Bid.int_to_bid(int(b)),
                         declarer=None if d == '-' else Player[d])
-    for op in ops:
-        t = op.split()
-        try:
-            if t[0] == 'P.base':
-                im.env, im.mode, im.cur = None, None, []
-                im.env = PlayingPhase(contract(t[1], t[2]))
-                im.mode = 'base'
-                out.append('NEW ' + im.line())
-            elif t[0] == 'P.full':
-                im.env, im.mode, im.cur = None, None, []
-                hands = Hands(*[parse_cards(x) for x in t[3:7]])
-                im.env = PlayingPhaseWithHands(contract(t[1], t[2]), hands)
-                im.mode = 'full'
-                out.append('NEW ' + im.line())
-            elif t[0] == 'P.obs':
-                im.env, im.mode, im.cur = None, None, []
-                im.env = ObservedPlayingPhase(contract(t[1], t[2]), Player[t[3]], parse_cards(t[4]))
-                im.mode = 'obs'
-                out.append('NEW ' + im.line())
-            elif t[0] == 'P.dummy':
-                im.env.set_dummy_hand(parse_cards(t[1]))
-                out.append('SET ' + im.line())
-            elif t[0] in ('P.card', 'P.play'):
-                if im.env is None:
-                    out.append('bad-op')
-                    continue
-                n_before = len(im.env.playing_history.history)
-                try:
-                    if t[0] == 'P.card':
-                        c = int(t[1])
-                        im.env.play_card(Card.int_to_card(c))
-                    else:
-                        c = int(t[2])
-                        im.env.play_card_by_player(Card.int_to_card(c), Player[t[1]])
-                    im.cur.append(c)
-                    if len(im.env.playing_history.history) != n_before:
-                        im.cur = []
-                    out.append('OK ' + im.line())
-                except Exception:
-                    out.append('ERR ' + im.line())
-            elif t[0] == 'P.avail':
-                hand = parse_cards(t[1])
-                first = None if t[2] == '-' else Card.int_to_card(int(t[2]))
-                r = PlayingPhase.available_cards(hand, first)
-                out.append(cs(sorted(int(c) for c in r)))
-            elif t[0] == 'P.highest':
-                su = Suit[t[1]]
-                cards = [] if t[2] == '-' else [Card.int_to_card(int(x)) for x in t[2].split(',')]
-                out.append(str(int(PlayingPhase.calc_highest(su, cards))))
-            else:
-                out.append('bad-op')
-        except Exception:
-            out.append('ERR')
-    return out
+    t = op.split()
+    try:
+        if t[0] == 'P.base':
+            im.env, im.mode, im.cur = None, None, []
+            im.env = PlayingPhase(contract(t[1], t[2]))
+            im.mode = 'base'
+            return 'NEW ' + im.line()
+        elif t[0] == 'P.full':
+            im.env, im.mode, im.cur = None, None, []
+            hands = Hands(*[parse_cards(x) for x in t[3:7]])
+            im.env = PlayingPhaseWithHands(contract(t[1], t[2]), hands)
+            im.mode = 'full'
+            return 'NEW ' + im.line()
+        elif t[0] == 'P.obs':
+            im.env, im.mode, im.cur = None, None, []
+            im.env = ObservedPlayingPhase(contract(t[1], t[2]), Player[t[3]], parse_cards(t[4]))
+            im.mode = 'obs'
+            return 'NEW ' + im.line()
+        elif t[0] == 'P.dummy':
+            im.env.set_dummy_hand(parse_cards(t[1]))
+            return 'SET ' + im.line()
+        elif t[0] in ('P.card', 'P.play'):
+            if im.env is None:
+                return 'bad-op'
+            n_before = len(im.env.playing_history.history)
+            try:
+                if t[0] == 'P.card':
+                    c = int(t[1])
+                    im.env.play_card(Card.int_to_card(c))
+                else:
+                    c = int(t[2])
+                    im.env.play_card_by_player(Card.int_to_card(c), Player[t[1]])
+                im.cur.append(c)
+                if len(im.env.playing_history.history) != n_before:
+                    im.cur = []
+                return 'OK ' + im.line()
+            except Exception:
+                return 'ERR ' + im.line()
+        elif t[0] == 'P.avail':
+            hand = parse_cards(t[1])
+            first = None if t[2] == '-' else Card.int_to_card(int(t[2]))
+            r = PlayingPhase.available_cards(hand, first)
+            return cs(sorted(int(c) for c in r))
+        elif t[0] == 'P.highest':
+            su = Suit[t[1]]
+            cards = [] if t[2] == '-' else [Card.int_to_card(int(x)) for x in t[2].split(',')]
+            return str(int(PlayingPhase.calc_highest(su, cards)))
+        return 'bad-op'
+    except Exception:
+        return 'ERR'
+
+
+def impl_exec(ops):
+    im = Impl()
+    return [_step(im, op) for op in ops]
+
+
+def impl_exec_multi(tagged):
+    """several live play objects advanced alternately: [(tag, op)] -> outputs in the same order"""
+    ims = {}
+    return [_step(ims.setdefault(tag, Impl()), op) for tag, op in tagged]
 
 
 # ------------------------------------------------------------------ generators
